@@ -90,6 +90,10 @@ def run_history_shard(mod, shard):
         evaluations[0] += 1
         cache = data.draw(st.sampled_from(cfg['caches']))
         prog = data.draw(mod.program_strategy(cfg, cache) if hasattr(mod, 'program_strategy') else gen.program(cfg, cache))
+        if gen.chance(data.draw, cfg.get('spell_p', 0.25)):
+            # metamorphic layer: every path handed to the library in the real run is respelled (same os.path.abspath)
+            prog = dict(prog, spell=data.draw(st.integers(1, 1 << 16)))
+            counters['respelled_path_cases'] += 1
         h = Harness(prog, cache, dict(getattr(mod, 'OPTS', {})))
         h.failures = []
         try:
